@@ -113,6 +113,33 @@ def _run_chain(shard):
     return agg
 
 
+def _run_optimised(shard):
+    """("__optimised__", s): shard s in a separate interpreter started with -O (asserts compiled out)."""
+    import pickle
+    import subprocess
+    env = dict(os.environ, PYTHONPATH=VERIF, VERIF_REPO=repo.REPO, PYTHONHASHSEED="0", PYTHONDONTWRITEBYTECODE="1")
+    p = subprocess.run([sys.executable, "-O", "-m", "dalimc.core.optshard", _CHECK.ID], input=pickle.dumps(shard[1]), capture_output=True, env=env,
+                       cwd=VERIF, timeout=7200)
+    if p.returncode != 0 or not p.stdout:
+        raise RuntimeError(f"HARNESS: optimised shard {shard[1]!r} failed: {p.stderr.decode(errors='replace')[-600:]}")
+    r = pickle.loads(p.stdout)
+    if "harness_error" in r:
+        raise RuntimeError("HARNESS (under -O): " + r["harness_error"])
+    for v in r["violations"]:
+        v["case"] = {"__shard__": jsonable(shard), "__inner__": jsonable(v["case"])}
+        v["message"] = "[interpreter started with -O] " + v["message"]
+    observe(r, "shards_rerun_under_python_O", 1)
+    return r
+
+
+def optimised_of(chk, tier):
+    """Checks that declare OPTIMISED_STRIDE = {tier: k}: every k-th shard is run once more under python -O."""
+    stride = (getattr(chk, "OPTIMISED_STRIDE", None) or {}).get(tier)
+    if not stride:
+        return []
+    return [("__optimised__", s) for s in list(chk.shards(tier))[stride // 2::stride]]
+
+
 def chains_of(chk, tier):
     """Chains for checks that declare CHAIN_STRIDE = {tier: k}: every k-th shard forwards, the same backwards,
     and the interleaved selection rotated by half."""
@@ -132,7 +159,12 @@ def chains_of(chk, tier):
 def _worker_run(shard):
     t0 = time.time()
     try:
-        r = _run_chain(shard) if shard and shard[0] == "__chain__" else _CHECK.run_shard(shard)
+        if shard and shard[0] == "__chain__":
+            r = _run_chain(shard)
+        elif shard and shard[0] == "__optimised__":
+            r = _run_optimised(shard)
+        else:
+            r = _CHECK.run_shard(shard)
     except BaseException:
         r = _library_exception(shard)
         if r is None:
@@ -174,7 +206,7 @@ def run_check(cid, tier, jobs=None):
     logging.disable(logging.CRITICAL)
     repo.setup()
     chk = load_check(cid)
-    shards = list(chk.shards(tier)) + chains_of(chk, tier)
+    shards = list(chk.shards(tier)) + chains_of(chk, tier) + optimised_of(chk, tier)
     random.Random(seed).shuffle(shards)
     shards.sort(key=lambda x: 0 if x and x[0] == "__chain__" else 1)      # the long tasks first
     jobs = jobs or int(os.environ.get("VERIF_JOBS", "0") or 0) or min(16, os.cpu_count() or 1)
